@@ -5,6 +5,17 @@ ROOT = os.path.dirname(os.path.dirname(os.path.abspath(__file__)))
 
 # id -> (category, technique, level text, level note, design_ref)
 CHECKS = {
+ "C11": ("exploration",
+         "bounded-exhaustive enumeration of node sets x every supply permutation x boundary queries on the real curves (both constructors) vs closed forms; exhaustive short sorted lists for index_left",
+         "5 rules x all gap vectors over 4 spacings for 2..5 (6) nodes x 3 value sets x every supply permutation x both constructors x node / node+-1d / quarter points / far-outside queries; index_left on every non-decreasing list of length 2..9 (11) over 5 values x 11 queries.",
+         "Trusted: two-point closed forms in harness/src/curvemodel.rs.",
+         "DESIGN.md §4 C11"),
+ "C12": ("model_checking",
+         "explicit-state BFS (stateright) to a fixpoint over the real curve object under set_ad_order from every constructor/kind of initial curve; RefDual derivatives of the closed forms",
+         "The state graph under set_ad_order(0|1|2) is explored to its fixpoint from 3 600 (thorough: more) initial curves, so every switch sequence of any length is covered; every state is checked for node tags, value invariance and exact first/second sensitivities (zero outside the interval used), and index_value.",
+         "Trusted: closed forms + RefDual; fixed node value tables.",
+         "DESIGN.md §4 C12"),
+
  "C07": ("exploration",
          "exhaustive enumeration of every (built-in calendar, date 1970-2200) pair on the real tables vs transcribed published rules; fixing histories vs business days",
          "Complete in both tiers: 14 calendars x 84 371 dates against rule models transcribed from the generator scripts (two-directional for tgt nyc fed ldn stk osl zur, one-directional documented holidays for tro tyo syd wlg mum), fed == nyc minus Good Friday, documented names resolve, nine fixing files reproduce exactly.",
